@@ -1,0 +1,45 @@
+//go:build verif
+
+// Contracts for the acv verifier (/verif). Comment-only file: no executable code.
+
+package handlers
+
+//@ func (handler *DenyHandler) CheckQuery(normalizedQuery string, parsedQuery sqlparser.Statement) (cont bool, err error)
+//@   props C05
+//@   safety
+//@   pure
+//@   ensures verdict-shape: (err != nil) <==> !cont
+//@   ensures unparsed-passes: parsedQuery == nil ==> cont
+//@   ensures by-query: parsedQuery != nil && len(handler.queries) != 0 && ufcall("CheckExactQueriesMatch", 0, normalizedQuery, handler.queries) ==> err == common.ErrDenyByQueryError
+//@   ensures by-table: parsedQuery != nil && len(handler.tables) != 0 && ufcall("CheckTableNamesMatch", 0, parsedQuery, handler.tables) ==> err != nil
+//@   ensures by-pattern: parsedQuery != nil && len(handler.patterns) != 0 && ufcall("CheckPatternsMatching", 0, handler.patterns, parsedQuery) ==> err != nil
+//@   ensures otherwise-passes: !(len(handler.queries) != 0 && ufcall("CheckExactQueriesMatch", 0, normalizedQuery, handler.queries)) && !(len(handler.tables) != 0 && ufcall("CheckTableNamesMatch", 0, parsedQuery, handler.tables)) && !(len(handler.patterns) != 0 && ufcall("CheckPatternsMatching", 0, handler.patterns, parsedQuery)) ==> cont
+//@   modifies nothing
+
+//@ func (handler *AllowHandler) CheckQuery(normalizedQuery string, parsedQuery sqlparser.Statement) (cont bool, err error)
+//@   props C05
+//@   safety
+//@   pure
+//@   ensures never-denies: err == nil
+//@   ensures unparsed-passes: parsedQuery == nil ==> cont
+//@   ensures by-query: parsedQuery != nil && len(handler.queries) != 0 && ufcall("CheckExactQueriesMatch", 0, normalizedQuery, handler.queries) ==> !cont
+//@   ensures by-all-tables: parsedQuery != nil && len(handler.tables) != 0 && ufcall("CheckTableNamesMatch", 1, parsedQuery, handler.tables) ==> !cont
+//@   ensures by-pattern: parsedQuery != nil && len(handler.patterns) != 0 && ufcall("CheckPatternsMatching", 0, handler.patterns, parsedQuery) ==> !cont
+//@   ensures otherwise-passes: !(len(handler.queries) != 0 && ufcall("CheckExactQueriesMatch", 0, normalizedQuery, handler.queries)) && !(len(handler.tables) != 0 && ufcall("CheckTableNamesMatch", 1, parsedQuery, handler.tables)) && !(len(handler.patterns) != 0 && ufcall("CheckPatternsMatching", 0, handler.patterns, parsedQuery)) ==> cont
+//@   modifies nothing
+
+//@ func (handler *DenyAllHandler) CheckQuery(sqlQuery string, parsedQuery sqlparser.Statement) (cont bool, err error)
+//@   props C05
+//@   safety
+//@   ensures deny-all: !cont && err != nil
+
+//@ func (handler *AllowAllHandler) CheckQuery(sqlQuery string, parsedQuery sqlparser.Statement) (cont bool, err error)
+//@   props C05
+//@   safety
+//@   ensures allow-all: !cont && err == nil
+
+//@ func (handler *QueryIgnoreHandler) CheckQuery(rawQuery string, parsedQuery sqlparser.Statement) (cont bool, err error)
+//@   props C05
+//@   pure
+//@   ensures never-denies: err == nil
+//@   modifies nothing
